@@ -120,6 +120,10 @@ def run(R):
             done = sb.snapshot()
             hist1 = len(sb.history() or [])
             evs = inject.mutating_events(trace, sb.root, classes=("user", "state"))
+            # the program's own messages: a signal that lands while the main thread is writing to the terminal meets whatever
+            # the handler does with the same stream (a handler that prints re-enters stderr's lock)
+            main_pid, all_evs = inject.parse_trace(trace, sb.root)
+            stdio = [x for x in all_evs if x.pid == main_pid and x.cls == "stdio" and x.sys == "write" and not x.ret.startswith("-")]
             sb.cleanup()
             if rc != 0 or done == before:
                 fails.append({"why": f"undisturbed {what} failed or did nothing", "rc": rc, "search": search, "replace": replace})
@@ -127,6 +131,10 @@ def run(R):
             sel = list(range(len(evs)))
             if quick and len(sel) > 14:
                 sel = sorted(g.r.sample(sel, 14))
+            pick = stdio[:3] + stdio[-2:] if quick else stdio
+            evs = evs + [x for k, x in enumerate(pick) if x not in pick[:k]]
+            sel += list(range(len(evs) - len([x for k, x in enumerate(pick) if x not in pick[:k]]), len(evs)))
+            stats["terminal_write_points"] = stats.get("terminal_write_points", 0) + len(pick)
             for j in sel:
                 ev = evs[j]
                 variants = (("SIGINT", 1), ("SIGTERM", 1), ("SIGINT", 2), ("SIGTERM", 2), ("SIGINT+SIGTERM", 2))
